@@ -70,6 +70,29 @@ register(
     "DESIGN.md §3 C09",
 )
 
+register(
+    "C01",
+    "bounded-exhaustive product grid over damping regimes (points on both sides of every coefficient-formula switch) x w*h x order x forces x ICs x solver x option variants x mode orderings, against a 40-digit mpmath closed-form reference, equation-of-motion residual and pairwise solver agreement",
+    "Every combination of the mode alphabet (rigid-body damped/undamped across both cut-offs, under/critical-band/"
+    "over-damped, residual-flexibility), step-size ladder, hold order, force history, initial-condition form, solver "
+    "(SolveUnc uncoupled and complex-mode paths, SolveExp2, SolveExp1) and option variant (m None/1-D/2-D, rb "
+    "auto/explicit/bool, pre_eig, every ordering of rb/el/rf incl. interleaved) is executed and compared with the "
+    "exact solution; exhaustive over the alphabet, nothing between alphabet points.",
+    "Trusted: mpmath expm reference (vf/ref/ode_ref.py); frozen tolerance table c01_tol.json (100x the worst error "
+    "of the pinned tree per ill-conditioned cell, round-off floor elsewhere); alphabet values.",
+    "DESIGN.md §3 C01",
+)
+register(
+    "C07",
+    "bounded-exhaustive grid over matrix structures x ||Ah|| on both sides of every Pade/route switch x h x order x B x half x function, against a 50-digit Van Loan reference; SSModel round-trip / sampled-response / bilinear-equivalence over method x system x h",
+    "All structure x norm x step x option x function combinations are evaluated (the Pade branch actually taken is "
+    "recorded by wrapping the helper and reported as the signature) and E, the two integrals, P, Q and one hold step "
+    "are compared with the exact values; every discretisation method is round-tripped and its sampled response "
+    "compared with the exactly integrated held-input response.",
+    "Trusted: mpmath expm; normwise max-abs error measure with tolerance 2e3*eps*max(1,||Ah||); matrix sizes <= 4.",
+    "DESIGN.md §3 C07",
+)
+
 
 def build():
     checks = []
